@@ -95,6 +95,33 @@ pub fn gen(tier: &str, seed: u64, out: &mut dyn Write) {
             }
         }
     }
+    // round 3: directories missing ABOVE the target (the surroundings are snapshotted); empty-but-present containers at
+    // every nesting level of kerning / groups / lib, built through the API, by add-then-remove, and hand-written;
+    // format 1 / 2 sources with data/ and images/ saved elsewhere and in place
+    for anc in 1..=2 {
+        for load in 0..2 {
+            for _ in 0..3 {
+                emit(out, &scratch, &format!("rich={} load={} stores={} sabot=0 kinds=0 pre=0 craft=0 anc={} e=", rng.below(32), load, rng.below(3), anc));
+            }
+        }
+    }
+    for e in ["kp", "k2", "ke,k2", "g2", "l2", "kp,g2,l2,ge,le", "ke", "kp,fe.0"] {
+        for load in 0..2 {
+            for &(rich, pre) in &[(0u32, 0u32), (24, 2), (31, 2 + 3 * load)] {
+                emit(out, &scratch, &format!("rich={} load={} stores=0 sabot=0 kinds=0 pre={} craft=0 e={}", rich, load, pre, e));
+            }
+        }
+    }
+    for pre in [0u32, 2, 5] {
+        for rich in [0u32, 31] {
+            emit(out, &scratch, &format!("rich={} load=1 stores=1 sabot=0 kinds=0 pre={} craft=13 e=", rich, pre));
+        }
+    }
+    for legacy in 1..=2 {
+        for pre in [0u32, 2, 5] {
+            emit(out, &scratch, &format!("rich=13 load=1 stores={} sabot=0 kinds=0 pre={} craft=0 legacy={} e=", legacy, pre, legacy));
+        }
+    }
     // other entry points, other spellings of the target, fonts from partial loads (phase 3 review)
     for wo in 1..=2 {
         for pre in 0..6 {
